@@ -72,7 +72,9 @@ RULE = (
     "valid type-directed queries (C01 generator, three backends) with one unsupported construct grafted at a random live position: "
     "operator outside the tables (//, @, <<, >>, &, |, ^, ~), comparison chain, unknown node kinds (set / list comprehension / f-string / "
     "starred / lambda as value), slice, arithmetic on a sequence, a value used as a sequence, Aggregate without seed / with a lambda seed, "
-    "raw objects as output, templated getAttribute, call keywords; plus malformed / unknown metadata and non-call tops. "
+    "raw objects as output, templated getAttribute, call keywords, arithmetic (+ - * /) whose two operands have one and the same unsupported type "
+    "(a collection accessor with itself - at the place of any live accessor -, a vector attribute / an object / a collection-valued method "
+    "with itself, two strings; also as fixed top-level shapes); plus malformed / unknown metadata and non-call tops. "
     "A case is non-trivial when the host query has >=2 operators; distinct = distinct (backend, grafted query). "
     "Wrong-arity family: a callee with a fixed parameter list (add_cpp_function function with 0..3 / method with 0..2 parameters, DeltaR, "
     "getAttributeFloat, getAttributeVectorFloat, collection accessor, Range, First, Count at a random live position; ResultTTree) written with "
@@ -315,6 +317,41 @@ GRAFTS_METH = [
 ]
 
 
+# arithmetic whose two operands have ONE AND THE SAME unsupported type (a collection with itself, a vector attribute with
+# itself, an object with itself, two strings): refused because no operand is a number - not because the types differ
+SAME_OPS = [("+", "Add"), ("-", "Sub"), ("*", "Mult"), ("/", "Div")]
+GRAFTS_COLL = []
+SAME_TOP = []
+for _sym, _nm in SAME_OPS:
+    GRAFTS_NUM += [
+        (f"same_str:{_nm}", (lambda sym: lambda n: RAW(f"('Em' {sym} 'Frac')"))(_sym), None),
+    ]
+    GRAFTS_METH += [
+        (f"same_vec:{_nm}", (lambda sym: lambda o, m: RAW("({0}.vs() " + sym + " {0}.vs())", o))(_sym), None),
+        (f"same_vec_count:{_nm}", (lambda sym: lambda o, m: RAW("({0}.vs() " + sym + " {0}.vs()).Count()", o))(_sym), None),
+        (f"same_obj:{_nm}", (lambda sym: lambda o, m: RAW("({0} " + sym + " {0})", o))(_sym), None),
+        (f"same_kids_count:{_nm}", (lambda sym: lambda o, m: RAW("({0}.kids() " + sym + " {0}.kids()).Count()", o))(_sym), None),
+    ]
+    # at the place of a collection accessor (its consumer - Select, Where, Count … - is applied to the "sum")
+    GRAFTS_COLL += [
+        (f"same_coll:{_nm}", (lambda sym: lambda node: RAW("({0}." + node["c"] + "(" + json.dumps(node["bank"]).replace("{", "{{").replace("}", "}}") + ") " + sym
+                                                       + " {0}." + node["c"] + "(" + json.dumps(node["bank"]).replace("{", "{{").replace("}", "}}") + "))", node["e"]))(_sym), None),
+    ]
+    for _shape, _src in [
+        ("coll_out", "Select(DSMD, lambda e: (e.As('ba') {op} e.As('ba')))"),
+        ("coll_count", "Select(DSMD, lambda e: (e.As('ba') {op} e.As('ba')).Count())"),
+        ("coll_select", "Select(DSMD, lambda e: (e.As('ba') {op} e.As('ba')).Select(lambda a: a.d()))"),
+        ("vec_out", "Select(DSMD, lambda e: e.As('ba').Select(lambda a: (a.vs() {op} a.vs())))"),
+        ("vec_count", "Select(DSMD, lambda e: e.As('ba').Select(lambda a: (a.vs() {op} a.vs()).Count()))"),
+        ("obj_out", "Select(DSMD, lambda e: e.As('ba').Select(lambda a: (a {op} a)))"),
+        ("obj_first", "Select(DSMD, lambda e: (e.As('ba').First() {op} e.As('ba').First()))"),
+        ("str_out", "Select(DSMD, lambda e: ('Em' {op} 'Frac'))"),
+        ("str_per_element", "Select(DSMD, lambda e: e.As('ba').Select(lambda a: ('a' {op} 'b')))"),
+        ("str_column", "ResultTTree(Select(DSMD, lambda e: (e.As('ba').Count(), 'Em' {op} 'Frac')), ['n', 's'], 't', 'f.root')"),
+    ]:
+        SAME_TOP.append((f"same_type:{_shape}:{_nm}", _src.replace("{op}", _sym), None))
+
+
 def _uses(q, x) -> bool:
     if isinstance(q, dict):
         return (q.get("k") == "var" and q.get("n") == x) or any(_uses(v, x) for v in q.values())
@@ -454,6 +491,7 @@ ARG_CASES.append(("in_DeltaR_arg:getAttribute", "Select(DSMD, lambda e: e.As('ba
 ARG_CASES.append(("in_userfn_arg:getAttribute", f"Select(MetaData(DSMD, {USERFN!r}), lambda e: e.As('ba').Select(lambda a: myf(2.0 * a.getAttribute('x'), a.g())))", "atlas"))
 ARG_CASES.append(("in_userfn_nested:getAttribute", f"Select(MetaData(DSMD, {USERFN!r}), lambda e: e.As('ba').Select(lambda a: myf(myf(a.d(), a.getAttribute('x')), a.g())))", "atlas"))
 TOP_CASES += ARG_CASES
+TOP_CASES += SAME_TOP
 
 
 def gen_cases(ctx, n):
@@ -461,12 +499,17 @@ def gen_cases(ctx, n):
     for i in range(n):
         b = P.BACKENDS[i % 3]
         host = cgroup.gen_case(ctx.rng, backend=b, nevents=1)
-        pos = [p for p in positions(host.query) if p[0] != "coll"]
+        pos = positions(host.query)
         if not pos:
             continue
         kind, path = ctx.rng.choice(pos)
+        if kind == "coll" and ctx.rng.random() < 0.65 and any(p[0] != "coll" for p in pos):
+            kind, path = ctx.rng.choice([p for p in pos if p[0] != "coll"])  # accessors are many: keep them a modest share
         node = get_at(host.query, path)
-        if kind == "meth":
+        if kind == "coll":
+            name, build, py = ctx.rng.choice(GRAFTS_COLL)
+            new = build(node)
+        elif kind == "meth":
             # the templated getAttribute is an ATLAS (xAOD jet) refusal; elsewhere it is an ordinary unknown method
             # … and it is only refused on a plain-name receiver (on an indexed element it is accepted: listed finding)
             name, build, py = ctx.rng.choice([g for g in GRAFTS_METH if g[0] != "getAttribute" or (b == "atlas" and node["o"].get("k") == "var")])
